@@ -63,6 +63,24 @@ Orderings(t) ==
                 p \in Perms(t.ms)}
     [] OTHER -> {t}
 
+\* the number of orderings, computed without enumerating them (saturating at OCap)
+OCap == 10000
+SatMul(a, b) == IF a >= OCap \/ b >= OCap THEN OCap ELSE IF a * b > OCap THEN OCap ELSE a * b
+RECURSIVE Factorial(_)
+Factorial(n) == IF n <= 1 THEN 1 ELSE SatMul(n, Factorial(n - 1))
+RECURSIVE OrderingCount(_)
+OrderingCount(t) ==
+  LET RECURSIVE Prod(_, _)
+      Prod(ts, i) == IF i > Len(ts) THEN 1 ELSE SatMul(OrderingCount(ts[i]), Prod(ts, i + 1))
+  IN CASE t.k \in {"array", "mut"} -> OrderingCount(t.e)
+       [] t.k = "tuple" -> Prod(t.es, 1)
+       [] t.k = "fn" -> SatMul(Prod(t.ps, 1), OrderingCount(t.r))
+       [] t.k = "struct" -> SatMul(Factorial(Cardinality(DOMAIN t.fs)),
+                                   LET ns == SetToSeq(DOMAIN t.fs) IN
+                                   Prod([i \in 1..Len(ns) |-> t.fs[ns[i]]], 1))
+       [] t.k = "multi" -> SatMul(Factorial(Cardinality(t.ms)), Prod(SetToSeq(t.ms), 1))
+       [] OTHER -> 1
+
 \* what Type::from(pair) builds from a syntax tree
 RECURSIVE Denote(_)
 Denote(o) ==
